@@ -262,7 +262,7 @@ PROPS = {
         props_file="Props/C07.v",
         families=[("core", NONE, 250), ("hostile", NONE, 50)],
         projection="C07", monitors=["C07"],
-        level_note="Causes of ending, no spontaneous ending and reference accounting are proved; 'eventually ends' rests on the fairness of the tokio scheduler (a woken task is eventually polled), which is outside the model (partial).",
+        level_note="Causes of ending, no spontaneous ending and reference accounting are proved; 'eventually ends' is proved as a ranking argument (the rank never rises, every enabled step of the actor lowers it or enters on_stop, a step is enabled unless the hook is blocked); that an enabled step is eventually taken is the fairness of the tokio scheduler (a woken task is eventually polled), which is outside the model (partial).",
     ),
     "C11": dict(
         props_file="Props/C11.v",
